@@ -274,6 +274,9 @@ func c02Check(ctx *Ctx, idx int, cs coreCase) {
 		ctx.Rep.Fail(hx.Failure{Kind: "model-mismatch", Detail: fmt.Sprintf("model planner fault %v, real planner planned", mplan["msg"]), Case: full, Model: mplan, Index: idx})
 		return
 	}
+	if !modelsAgree(ctx, mplan, full, idx) {
+		return
+	}
 	var realSteps, modelSteps []interface{}
 	for _, s := range rp.RootSteps {
 		realSteps = append(realSteps, realStepToJSON(s))
